@@ -190,11 +190,11 @@ def main(tier, args):
     # (sweep, number of processes, expect file)
     if thorough:
         plan = [("b64-rt", 16, ""), ("b64-dec", 16, ""), ("hex-rt", 16, ""), ("hex-dec", 16, ""), ("url-rt", 16, ""), ("url-dec", 16, ""),
-                ("sint", 1, ""), ("ser", 8, ""), ("crc", 1, crc_f), ("md5", 8, md5_f), ("md5big", 1, md5_f), ("aes", 16, aes_f)]
+                ("sint", 1, ""), ("ser", 8, ""), ("crc", 1, crc_f), ("md5", 8, md5_f), ("md5big", 1, md5_f), ("aes", 16, aes_f), ("align", 15, ",".join((crc_f, md5_f, aes_f)))]
         deadline = 1200
     else:
         plan = [("b64-dec", 8, ""), ("url-dec", 3, ""), ("b64-rt", 1, ""), ("hex-rt", 1, ""), ("hex-dec", 2, ""), ("url-rt", 1, ""),
-                ("md5big", 1, md5_f), ("sint", 1, ""), ("ser", 1, ""), ("crc", 1, crc_f), ("md5", 1, md5_f), ("aes", 2, aes_f)]
+                ("md5big", 1, md5_f), ("align", 5, ",".join((crc_f, md5_f, aes_f))), ("sint", 1, ""), ("ser", 1, ""), ("crc", 1, crc_f), ("md5", 1, md5_f), ("aes", 2, aes_f)]
         deadline = 60
     only = getattr(args, "only", None)
     cmds = []
